@@ -5,6 +5,17 @@ From UEC Require Import Base.Wire Base.Dist Ec.Select Ec.BinomN.
 Import ListNotations.
 Local Open Scope Z_scope.
 
+(* [10; style; weights]: a statically typed chain built with the builder idioms - whatever the idiom, the left-nested
+   chain of the members (best / worst / random in turn) with those weights *)
+Definition marker (i : nat) : sel := match Nat.modulo i 3 with O => SBest | S O => SWorst | _ => SRandom end.
+Fixpoint chain_from (acc : sel) (i : nat) (ws : list Z) : sel :=
+  match ws with [] => acc | w :: r => chain_from (SPair acc (SLeaf (Z.to_N w) (marker i))) (S i) r end.
+Definition dec_chain (ws : list tree) : option sel :=
+  match tlist tZ (L ws) with
+  | Some (w0 :: r) => if forallb (fun w => 0 <=? w) (w0 :: r) then Some (chain_from (SLeaf (Z.to_N w0) (marker 0)) 1 r) else None
+  | _ => None
+  end.
+
 Fixpoint dec_sel (t : tree) : option sel :=
   match t with
   | L [A 0] => Some SBest | L [A 1] => Some SWorst | L [A 2] => Some SRandom
@@ -13,6 +24,7 @@ Fixpoint dec_sel (t : tree) : option sel :=
   | L [A 5; A w; s] => if 0 <=? w then option_map (SLeaf (Z.to_N w)) (dec_sel s) else None
   | L [A 6; a; b] => match dec_sel a, dec_sel b with Some x, Some y => Some (SPair x y) | _, _ => None end
   | L [A 9; s] => dec_sel s   (* a probe around a member: transparent for what is selected *)
+  | L [A 10; A _; L ws] => dec_chain ws
   | L [A 7] => Some SDynNil
   | L [A 8; s; A w; r] => if 0 <=? w then
                             match dec_sel s, dec_sel r with Some x, Some y => Some (SDynCons x (Z.to_N w) y) | _, _ => None end
@@ -102,6 +114,7 @@ Definition enc_law (l : list (Z * Q)) : list Z :=
 Fixpoint probes (zero : bool) (t : tree) : list bool :=
   match t with
   | L [A 9; _] => [zero]
+  | L [A 10; _; L ws] => map (fun w => match w with A x => zero || (x =? 0) | _ => zero end) ws
   | L [A 5; A w; s] => probes (zero || (w =? 0)) s
   | L [A 6; a; b] => probes zero a ++ probes zero b
   | L [A 8; s; A w; r] => probes (zero || (w =? 0)) s ++ probes zero r
@@ -111,6 +124,7 @@ Fixpoint probes (zero : bool) (t : tree) : list bool :=
 Fixpoint all_probed (t : tree) : bool :=
   match t with
   | L [A 9; _] => true
+  | L [A 10; _; _] => true
   | L [A 5; _; s] => all_probed s
   | L [A 6; a; b] => all_probed a && all_probed b
   | L [A 7] => true
@@ -127,11 +141,26 @@ Definition probes_ok (spec : tree) (nonempty : bool) (h : list tree) (calls : li
   && forallb (fun zc => negb (fst zc) || (snd zc =? 0)) (combine zs calls)
   && (negb (all_probed spec && nonempty) || (fold_right Z.add 0 calls =? hist_total h (fun c => negb (c =? -4)))).
 
+(* a dynamic list whose usize weights do not sum within usize: rand's weighted index rejects it (WeightError::Overflow),
+   which DynWeighted reports through its weight-error variant - an error value on every selection, never a panic *)
+Fixpoint dyn_weight_sum (t : tree) : Z :=
+  match t with
+  | L [A 8; _; A w; r] => w + dyn_weight_sum r
+  | _ => 0
+  end.
+Definition dyn_overflows (t : tree) : bool := match t with L [A 8; _; _; _] => 2^64 <=? dyn_weight_sum t | _ => false end.
+
 (* input = [seed; draws; [pol; pop; spec]] or [seed; draws; [pol; pop; spec; warm-up population sizes]]: the selector
    value may have been used on other populations before - which must not matter; the frequencies are judged by the driver *)
 Definition judge (t : tree) : option (list Z) :=
   match t with
   | L [L [_; _; L (pol :: pop :: spec :: _)]; o] =>
+    if dyn_overflows spec then
+      Some [match o with
+            | L h => if negb (match h with [] => true | _ => false end)
+                        && forallb (fun e => match e with L [A (-4); _] => true | _ => false end) h then 0 else 2
+            | _ => 2 end; 8]
+    else
     olet pol := option_map Z.odd (tZ pol) in olet pop := tlist (tlist tZ) pop in olet s := dec_sel spec in
     let probe_verdict := match o with
                          | L [A (-50); L h; calls] => option_map (probes_ok spec (negb (Nat.eqb (length pop) 0)) h) (tlist tZ calls)
